@@ -450,10 +450,10 @@ def corrupt(rng, b, h):
 def check(run):
     run.prove(MODULE, THEOREMS)
     run.source_tie(['SrcGeohash'], 'GeoVerif.Props.C11Src', ['GV.C11Src.' + t for t in (
-        'decLoop2_eq', 'decLoop1_eq', 'decodeCfg_eq', 'decodeNiemeyer_eq', 'encLoop_done', 'encLoop_step', 'encLoop_eq',
-        'encodeCfg_eq', 'coordToNiemeyer_eq', 'subhashes_eq', 'niemeyerToGeobox_eq', 'getSurrounding_eq', 'loops_eq_of_wf',
-        'bases_eq', 'src_decode_encode_contains', 'src_encode_shape', 'src_encode_centre', 'src_decode_rejects',
-        'src_subhashes_tile', 'src_surrounding_adjacent')])
+        'decInner_generic', 'decOuter_generic', 'decodeCfg_generic', 'decodeNiemeyer_eq', 'encLoop_generic', 'encodeCfg_generic',
+        'coordToNiemeyer_eq', 'subhashes_eq', 'niemeyerToGeobox_eq', 'getSurrounding_eq', 'loops_eq_of_wf', 'bases_eq',
+        'src_decode_encode_contains', 'src_encode_shape', 'src_encode_centre', 'src_decode_rejects', 'src_subhashes_tile',
+        'src_surrounding_adjacent')])
     rng = run.rng
     Coordinate, GeoBox, GeoPoint, GeoPolygon, G = _mods()
 
